@@ -254,12 +254,20 @@ func zzC05Reports() {
 func zzC05Takeover() {
 	z := zzMkIso()
 	const newID = "127.0.0.9"
-	target := nondetChoice("takeover-to", 2) // 0: an unused node id, 1: the other associated node's id
+	target := nondetChoice("takeover-to", 3) // 0: an unused node id, 1: the other associated node's id, 2: the id the session's node already has
 	nid := newID
-	if target == 1 {
+	switch target {
+	case 1:
 		nid = zzNodeID(1 - z.na)
+	case 2:
+		nid = zzNodeID(z.na)
 	}
 	zzDeliver(z.s, zzModReq(2, 7, ie.NewNodeID(nid, "", "")), z.addr(z.na), 7)
+	// an SMF may name itself in every Modification: the same Node ID once more changes nothing
+	repeated := nondetBool("takeover-request-repeated")
+	if repeated {
+		zzDeliver(z.s, zzModReq(2, 6, ie.NewNodeID(nid, "", "")), z.addr(z.na), 6)
+	}
 	z.bIntact("takeover")
 	// now re-associate one of the three ids
 	which := nondetChoice("reassoc", 3)
@@ -271,10 +279,16 @@ func zzC05Takeover() {
 	if z.na == z.nb {
 		tag = ".b-same-node"
 	}
-	if target == 1 {
+	switch target {
+	case 1:
 		tag += ".to-associated-id"
-	} else {
+	case 2:
+		tag += ".to-own-id"
+	default:
 		tag += ".to-new-id"
+	}
+	if repeated {
+		tag += ".repeated"
 	}
 	switch {
 	case rid == nid:
